@@ -362,6 +362,12 @@ def r_sense(ctx):
                 val = ast.BinOp(left=val if val is not None else ev.target, op=ev.op, right=ev.value)
         return val
 
+    # as a program: the send method unrolled for each sense and for another string (the structural clauses below decide when it is not interpretable)
+    if _cvxpy_sense_program(ctx, be, fn, senses):
+        r_expr_to_solver(ctx, be)
+        from . import mosekprog
+        mosekprog.r_mosek_rows(ctx, senses)
+        return
     accepted = set()
     for lit, want in (("inequality", ast.LtE), ("equality", ast.Eq)):
         ps = paths_for(fn, lit)
@@ -415,6 +421,54 @@ def r_sense(ctx):
 
 
 
+
+
+def _cvxpy_sense_program(ctx, be, fn, senses):
+    """-> True when the method was unrolled for every case (the obligations are then recorded)"""
+    from ..miniint import IndexInterp, SymObj, is_token
+    repo = ctx.repo
+    prm = params_of(fn)
+    cons = prm[1]
+    results = []
+    for lit in ("inequality", "equality", "\0other"):
+        c = SymObj("Constraint", label="c", equality_or_inequality=lit, expression=("expr",))
+        env = {"self." + TRACKED: [], "self." + SOLVER_CONS: [], "self.verbose": 0, cons: c, "Constraint": ("type", "Constraint")}
+        for p0 in prm[2:]:
+            env[p0] = True
+        it = IndexInterp(env, on_call=lambda node, it0: ("tr", it0.ev(node.args[0])) if call_name(node) == TRANSLATE and len(node.args) == 1 else NotImplemented)
+        it.home = (repo, fn._module, be.name)
+        try:
+            it.run(fn.body)
+            results.append((lit, "ok", list(it.env.get("self." + SOLVER_CONS) or [])))
+        except AnalysisError as ex:
+            if "the index program raises" in str(ex):
+                results.append((lit, "raises", str(ex)))
+            else:
+                ctx.notes.append("R-SENSE (cvxpy) program skipped: %s" % ex)
+                return False
+    accepted = set()
+    for lit, kind, val in results:
+        if lit == "\0other":
+            continue
+        want = "LtE" if lit == "inequality" else "Eq"
+        msg = None
+        if kind == "raises":
+            msg = "'%s' raises" % lit
+        else:
+            accepted.add(lit)
+            flipped = {"LtE": "GtE", "Eq": "Eq"}[want]
+            tr = ("tr", ("expr",))
+            if len(val) != 1:
+                msg = "'%s': %d solver constraints appended" % (lit, len(val))
+            elif not (val[0] == ("cmp", want, tr, 0) or val[0] == ("cmp", flipped, 0, tr)):
+                msg = "'%s' becomes `%r`, expected `translation(expression) %s 0`" % (lit, val[0], "<=" if want == "LtE" else "==")
+        ctx.ob("R-SENSE", "CvxpyWrapper.send_constraint_to_solver::%s" % lit, msg is None,
+               "'%s' becomes `translation(expression) %s 0`" % (lit, "<=" if want == "LtE" else "==") if msg is None else msg, loc(fn, fn))
+    closed = [k for l, k, v in results if l == "\0other"] == ["raises"]
+    ctx.ob("R-SENSE", "CvxpyWrapper.send_constraint_to_solver::literal set", closed and accepted == senses,
+           "accepts exactly the senses Constraint accepts and raises on anything else" if closed and accepted == senses else
+           "accepts %s (Constraint accepts %s); another sense %s" % (sorted(accepted), sorted(senses), "raises" if closed else "is silently accepted"), loc(fn, fn))
+    return True
 
 
 def r_expr_to_solver(ctx, be):
@@ -663,6 +717,21 @@ def r_rowidx(ctx):
     mb = _be(ctx.repo, "mosek")
     fn = mb.methods["send_constraint_to_solver"]
     ctx.unit(qualname(fn))
+    # the row programs (R-MOSEKPROG: one new row, addressed consistently, its index recorded iff tracked) and the recovery programs (R-MOSEKDUAL:
+    # multiplier k read at the recorded row of tracked constraint k) decide these clauses when the methods are within the interpreted fragment
+    from . import mosekprog
+    mosekprog.r_mosek_rows(ctx)
+    try:
+        mosekprog.r_mosek_duals(ctx)
+        duals_ok = True
+    except AnalysisError:
+        duals_ok = False
+    progs = [o for o in ctx.obligations if o.rule in ("R-MOSEKPROG", "R-MOSEKDUAL")]
+    by_program = duals_ok and bool(progs) and not any("not interpretable" in (o.msg or "") for o in progs)
+    if by_program:
+        ctx.notes.append("R-ROWIDX: row bookkeeping decided by the unrolled task programs (R-MOSEKPROG, R-MOSEKDUAL)")
+        _rowidx_width(ctx, mb)
+        return
     row_def = [s for s in flow.stmts_of(fn, ast.Assign) if isinstance(s.value, ast.Call) and call_name(s.value) == "getnumcon"]
     # the row-index list is the self attribute (other than the tracked list) to which the row number is appended
     rowvar = row_def[0].targets[0].id if len(row_def) == 1 and isinstance(row_def[0].targets[0], ast.Name) else None
@@ -687,6 +756,11 @@ def r_rowidx(ctx):
                 bad.append(src(n)[:50])
         ctx.ob("R-ROWIDX", "MosekWrapper.send_constraint_to_solver::row addressed", not bad,
                "coefficients and bounds address the new row" if not bad else "calls address another row: %s" % bad, loc(fn, fn))
+    _rowidx_width(ctx, mb)
+    _rowidx_reads(ctx, mb, ROWS)
+
+
+def _rowidx_width(ctx, mb):
     # row indices handed to the task are not squeezed through a narrow integer type
     for f2 in mb.methods.values():
         for c in ast.walk(f2):
@@ -697,6 +771,9 @@ def r_rowidx(ctx):
                        "row indices keep the width of the task's constraint count" if not narrow else
                        "the row-index array is built as `%s`: with numpy >= 2 adding the row number to an %s array raises OverflowError (or wraps) as soon as "
                        "the task has more rows than that type holds (128 rows for int8)" % (src(c.args[0]), (dotted(narrow[0].value) or "").split(".")[-1]), loc(f2, c))
+
+
+def _rowidx_reads(ctx, mb, ROWS):
     rec = mb.methods["_recover_dual_values"]
     reads = [n for n in ast.walk(rec) if isinstance(n, ast.Subscript) and dotted(n.value) == ROWS]
     okr = len(reads) == 1
